@@ -1,10 +1,119 @@
 import PrefVerif.Model.Distances
 import PrefVerif.Spec.Distances
+import PrefVerif.Lemmas.C20Kendall
+import PrefVerif.Lemmas.C20Misc
+import PrefVerif.Lemmas.C20Footrule
+/-!
+# C20 — ranking distances are true distances; distance matrix matches the profile
+
+Property theorems only (helper lemmas live in `PrefVerif/Lemmas/C20*.lean`).
+-/
 namespace PrefVerif.C20
 open PrefVerif.Distances PrefVerif.Spec
 
+/-- rankings of different length are refused (all three distances) -/
 theorem length_mismatch_refused (a b : List Nat) (h : a.length ≠ b.length) :
     kendallTau? a b = none ∧ footrule? a b = none ∧ sertel? a b = none := by
   simp [kendallTau?, footrule?, sertel?, h]
+
+/-- inside the domain the guarded functions return the raw loops -/
+theorem defined_on_domain (a b : List Nat) (h : SameRanking a b) :
+    kendallTau? a b = some (kt a b) ∧ footrule? a b = some (footruleNum a b, footruleDen a.length)
+    ∧ sertel? a b = some (a.length - 1 - sertelJ a b, a.length - 1) := by
+  have hl := h.length_eq
+  have hall : ∀ x, x ∈ a → x ∈ b := fun x hx => (h.2.2 x).1 hx
+  simp [kendallTau?, footrule?, sertel?, hl]
+  exact ⟨fun _ => hall, hall⟩
+
+/-- Kendall-tau equals the number of pairs ordered differently -/
+theorem kt_eq_dis (a b : List Nat) (h : SameRanking a b) : kt a b = dis a b a := by
+  exact kt_eq_dis' a b h.1
+
+theorem kt_symm (a b : List Nat) (h : SameRanking a b) : kt a b = kt b a := by
+  rw [kt_eq_dis' a b h.1, kt_eq_dis' b a h.2.1, dis_symm b a b, dis_perm_univ a b h.perm]
+
+theorem kt_triangle (a b c : List Nat) (hab : SameRanking a b) (hbc : SameRanking b c) :
+    kt a c ≤ kt a b + kt b c := by
+  have hac := hab.trans hbc
+  rw [kt_eq_dis' a c hac.1, kt_eq_dis' a b hab.1, kt_eq_dis' b c hbc.1,
+    ← dis_perm_univ b c hab.perm]
+  exact dis_triangle a b c a (fun x hx => (hab.2.2 x).1 hx)
+
+theorem kt_eq_zero_iff (a b : List Nat) (h : SameRanking a b) : kt a b = 0 ↔ a = b := by
+  constructor
+  · exact kt_eq_zero_imp a b h
+  · intro e
+    subst e
+    rw [kt_eq_dis' a a h.1, dis_self]
+
+/-- Sertel numerator is zero exactly on identical rankings (needs ≥ 2 alternatives:
+two rankings of the same set cannot first differ in the last position) -/
+theorem sertel_eq_zero_iff (a b : List Nat) (h : SameRanking a b) (h2 : 2 ≤ a.length) :
+    a.length - 1 - sertelJ a b = 0 ↔ a = b := by
+  constructor
+  · intro h0
+    exact eq_of_sameRanking_dropLast a b h (sertelJ_dropLast a b h.length_eq (by omega))
+  · intro e
+    subst e
+    rw [sertelJ_self]
+    omega
+
+theorem sertel_symm (a b : List Nat) (hl : a.length = b.length) : sertelJ a b = sertelJ b a := by
+  exact sertelJ_symm a b hl
+
+/-- numerator ≤ denominator, i.e. the value is in [0,1] -/
+theorem sertel_le_one (a b : List Nat) : a.length - 1 - sertelJ a b ≤ a.length - 1 := by
+  omega
+
+theorem footrule_eq_zero_iff (a b : List Nat) (h : SameRanking a b) :
+    footruleNum a b = 0 ↔ a = b := by
+  constructor
+  · exact eq_of_footruleNum_eq_zero a b h
+  · intro e
+    subst e
+    exact footruleNum_self a h.1
+
+theorem footrule_symm (a b : List Nat) (h : SameRanking a b) :
+    footruleNum a b = footruleNum b a := by
+  exact footruleNum_symm a b h
+
+/-- Σ|i − σ(i)| ≤ ⌊m²/2⌋ -/
+theorem footrule_le_one (a b : List Nat) (h : SameRanking a b) :
+    footruleNum a b ≤ footruleDen a.length := by
+  exact footruleNum_le a b h
+
+/-- `full_profile` has one ballot per voter -/
+theorem fullProfile_length {α : Type} (os : List (α × Nat)) :
+    (fullProfile os).length = (os.map (·.2)).sum := by
+  exact fullProfile_length' os
+
+theorem distanceMatrix_shape {α β : Type} (z : β) (f : α → α → β) (p : List α) :
+    (distanceMatrix z f p).length = p.length ∧ ∀ row ∈ distanceMatrix z f p, row.length = p.length := by
+  simp [distanceMatrix]
+
+/-- entry (i,j), i ≠ j, is the distance between ballots i and j of the profile, in that argument order -/
+theorem distanceMatrix_entry {α β : Type} (z : β) (f : α → α → β) (p : List α) (i j : Nat)
+    (hi : i < p.length) (hj : j < p.length) (hij : i ≠ j) :
+    ((distanceMatrix z f p)[i]?.bind (·[j]?)) = some (f p[i] p[j]) := by
+  rw [distanceMatrix_get z f p i j hi hj, if_neg hij]
+
+theorem distanceMatrix_diag {α β : Type} (z : β) (f : α → α → β) (p : List α) (i : Nat)
+    (hi : i < p.length) : ((distanceMatrix z f p)[i]?.bind (·[i]?)) = some z := by
+  rw [distanceMatrix_get z f p i i hi hi, if_pos rfl]
+
+theorem distanceMatrix_symm {α β : Type} (z : β) (f : α → α → β) (p : List α)
+    (hf : ∀ x y, f x y = f y x) (i j : Nat) :
+    ((distanceMatrix z f p)[i]?.bind (·[j]?)) = ((distanceMatrix z f p)[j]?.bind (·[i]?)) := by
+  by_cases hi : i < p.length
+  · by_cases hj : j < p.length
+    · rw [distanceMatrix_get z f p i j hi hj, distanceMatrix_get z f p j i hj hi]
+      by_cases hij : i = j
+      · subst hij; rfl
+      · rw [if_neg hij, if_neg (fun e => hij e.symm), hf]
+    · rw [distanceMatrix_get_none_right z f p i j hj, distanceMatrix_get_none_left z f p j i hj]
+  · rw [distanceMatrix_get_none_left z f p i j hi, distanceMatrix_get_none_right z f p j i hi]
+
+/-- non-vacuity: a concrete pair in the domain -/
+example : SameRanking [3, 1, 2] [2, 3, 1] ∧ kt [3, 1, 2] [2, 3, 1] = 2 := by decide
 
 end PrefVerif.C20
